@@ -26,24 +26,24 @@ use std::path::{Path, PathBuf};
 use std::process::Command;
 use std::sync::atomic::{AtomicU64, AtomicUsize, Ordering};
 
-struct JOp {
-    big: bool,
+pub struct JOp {
+    pub big: bool,
     /// the reference type the operation is about
-    ty: String,
+    pub ty: String,
     /// the Java class whose builder / fromBytes is called (`Unknown<ty>` for the fallback child)
-    class: String,
-    input: OpIn,
+    pub class: String,
+    pub input: OpIn,
 }
 
-struct Unit {
-    st: Selected,
+pub struct Unit {
+    pub st: Selected,
     inl_le: Desc,
     inl_be: Desc,
     text_le: String,
     text_be: String,
     ns: String,
     schema: Vec<String>,
-    ops: Vec<JOp>,
+    pub ops: Vec<JOp>,
 }
 
 /// What the reference (and the generated-code guide) expect `X.fromBytes(b)` to do.
@@ -163,7 +163,7 @@ fn expected(m: &Model, call: &str, call_ty: &str, b: &[u8]) -> Expect {
 
 /// Constructs on which the Java backend is known to misbehave (used in signatures only, so that
 /// one defect has one signature and a different construct gives a different one).
-fn java_markers(d: &Desc, ty: &str) -> Vec<&'static str> {
+pub fn java_markers(d: &Desc, ty: &str) -> Vec<&'static str> {
     let mut out: BTreeSet<&'static str> = BTreeSet::new();
     fn walk(d: &Desc, ty: &str, out: &mut BTreeSet<&'static str>, depth: usize) {
         if depth > 4 {
@@ -251,7 +251,14 @@ fn schema_line(m: &Model, pkg: &str, class: &str, ty: &str, with_payload: bool) 
     s
 }
 
-fn prepare(st: &Selected, src: &Path, thorough: bool) -> Option<Unit> {
+/// Operations supplied from outside (C07): (type, input) per byte order; the class called is
+/// the type itself, or its fallback child when the type has a payload and a value is built.
+pub struct ExtOps {
+    pub le: Vec<(String, OpIn)>,
+    pub be: Vec<(String, OpIn)>,
+}
+
+pub fn prepare(st: &Selected, src: &Path, thorough: bool, ext: Option<&ExtOps>) -> Option<Unit> {
     let d_le = st.desc.with_endian(Endian::Little);
     let d_be = st.desc.with_endian(Endian::Big);
     let (inl_le, inl_be) = match (rules::inline_groups(&d_le), rules::inline_groups(&d_be)) {
@@ -289,6 +296,28 @@ fn prepare(st: &Selected, src: &Path, thorough: bool) -> Option<Unit> {
                 } else {
                     Some(ty.clone())
                 };
+                if let Some(ext) = ext {
+                    // external operations: builds go to the concrete class of the type, parses
+                    // to the type's own fromBytes (only classes that declare one)
+                    for (t2, input) in if big { &ext.be } else { &ext.le } {
+                        if t2 != ty {
+                            continue;
+                        }
+                        match input {
+                            OpIn::Build(_) => {
+                                if let Some(class) = &class {
+                                    ops.push(JOp { big, ty: ty.clone(), class: class.clone(), input: input.clone() });
+                                }
+                            }
+                            OpIn::Parse(_) => {
+                                if decl.parent().is_none() || decl.payload().is_none() {
+                                    ops.push(JOp { big, ty: ty.clone(), class: ty.clone(), input: input.clone() });
+                                }
+                            }
+                        }
+                    }
+                    continue;
+                }
                 if let Some(class) = &class {
                     let vals: Vec<Val> = vg.values(ty).ok.into_iter().filter(|v| m.encode(ty, v).is_ok()).collect();
                     for v in vals {
@@ -616,48 +645,59 @@ fn evaluate(u: &Unit, res: &[OpOut], machinery_errors: &AtomicUsize) -> Verdicts
     (rep, c, sample)
 }
 
-#[allow(clippy::too_many_arguments)]
-fn run_group(units: &[&Unit], dir: &Path, src: &Path, drv_classes: &Path, t_cc: &AtomicU64, t_run: &AtomicU64, machinery_errors: &AtomicUsize) -> Vec<Verdicts> {
+pub enum Raw {
+    CompileError(String),
+    Ran(Vec<OpOut>),
+}
+
+pub struct Timers {
+    pub cc: AtomicU64,
+    pub run: AtomicU64,
+}
+
+/// Compile (one javac for the group) and run a group of states; javac reports every error of the
+/// group at once and each line names the package directory (s<id>le / s<id>be): exactly the
+/// states it names are dropped and the rest recompiled; if a line cannot be attributed, one
+/// javac per state. The result is aligned with `units`.
+pub fn run_group_raw(units: &[&Unit], dir: &Path, src: &Path, drv_classes: &Path, t: &Timers) -> Vec<Raw> {
     std::fs::create_dir_all(dir).expect("mkdir");
     let t0 = std::time::Instant::now();
     let built = javac(dir, src, units, drv_classes);
-    t_cc.fetch_add(t0.elapsed().as_millis() as u64, Ordering::Relaxed);
+    t.cc.fetch_add(t0.elapsed().as_millis() as u64, Ordering::Relaxed);
     let classes = match built {
         Ok(c) => c,
         Err(err) => {
             if units.len() == 1 {
-                return vec![compile_failure(units[0], err.lines().next().unwrap_or(""))];
+                return vec![Raw::CompileError(err.lines().next().unwrap_or("").to_string())];
             }
-            // javac reports every error of the group at once and each line names the package
-            // directory (s<id>le / s<id>be): drop exactly the states it names and recompile the
-            // rest; if a line cannot be attributed fall back to one javac per state
-            let mut bad: Vec<(usize, String)> = vec![];
+            let mut out: Vec<Option<Raw>> = units.iter().map(|_| None).collect();
+            let mut bad: Vec<usize> = vec![];
             let mut unattributed = false;
             for l in err.lines() {
                 match units.iter().position(|u| l.contains(&format!("/{}le/", u.ns)) || l.contains(&format!("/{}be/", u.ns))) {
                     Some(k) => {
-                        if !bad.iter().any(|(b, _)| *b == k) {
-                            bad.push((k, l.to_string()));
+                        if !bad.contains(&k) {
+                            bad.push(k);
+                            out[k] = Some(Raw::CompileError(l.to_string()));
                         }
                     }
                     None => unattributed = true,
                 }
             }
-            let mut out = vec![];
             if unattributed || bad.is_empty() {
                 for (k, u) in units.iter().enumerate() {
-                    out.extend(run_group(&[*u], &dir.join(format!("u{k}")), src, drv_classes, t_cc, t_run, machinery_errors));
+                    out[k] = run_group_raw(&[*u], &dir.join(format!("u{k}")), src, drv_classes, t).pop();
                 }
-                return out;
+            } else {
+                let rest_idx: Vec<usize> = (0..units.len()).filter(|k| !bad.contains(k)).collect();
+                let rest: Vec<&Unit> = rest_idx.iter().map(|k| units[*k]).collect();
+                if !rest.is_empty() {
+                    for (k, r) in rest_idx.iter().zip(run_group_raw(&rest, &dir.join("rest"), src, drv_classes, t)) {
+                        out[*k] = Some(r);
+                    }
+                }
             }
-            for (k, line) in &bad {
-                out.push(compile_failure(units[*k], line));
-            }
-            let rest: Vec<&Unit> = units.iter().enumerate().filter(|(k, _)| !bad.iter().any(|(b, _)| b == k)).map(|(_, u)| *u).collect();
-            if !rest.is_empty() {
-                out.extend(run_group(&rest, &dir.join("rest"), src, drv_classes, t_cc, t_run, machinery_errors));
-            }
-            return out;
+            return out.into_iter().map(|o| o.unwrap_or_else(|| Raw::CompileError("not compiled".into()))).collect();
         }
     };
     write_task(dir, units);
@@ -670,46 +710,72 @@ fn run_group(units: &[&Unit], dir: &Path, src: &Path, drv_classes: &Path, t_cc: 
         c.args(["-s", "KILL", "300", "java", "-XX:TieredStopAtLevel=1", "-XX:+UseSerialGC", "-Xshare:auto", "-Xmx1g", "-Xss2m", "-cp"]).arg(&cp).arg("Drv").arg(&tf).arg(start.to_string());
         c
     });
-    t_run.fetch_add(t1.elapsed().as_millis() as u64, Ordering::Relaxed);
+    t.run.fetch_add(t1.elapsed().as_millis() as u64, Ordering::Relaxed);
     let mut out = vec![];
     let mut off = 0usize;
     for u in units {
         let n = u.ops.len();
-        out.push(evaluate(u, &res[off..off + n], machinery_errors));
+        out.push(Raw::Ran(res[off..off + n].to_vec()));
         off += n;
     }
     out
 }
 
+fn run_group(units: &[&Unit], dir: &Path, src: &Path, drv_classes: &Path, t: &Timers, machinery_errors: &AtomicUsize) -> Vec<Verdicts> {
+    run_group_raw(units, dir, src, drv_classes, t)
+        .into_iter()
+        .zip(units)
+        .map(|(raw, u)| match raw {
+            Raw::CompileError(e) => compile_failure(u, &e),
+            Raw::Ran(res) => evaluate(u, &res, machinery_errors),
+        })
+        .collect()
+}
+
+/// Compile drivers/Drv.java once per run.
+pub fn build_driver(drv_classes: &Path) -> Result<(), String> {
+    std::fs::create_dir_all(drv_classes).map_err(|e| e.to_string())?;
+    let o = Command::new("javac").args(["-nowarn", "-d"]).arg(drv_classes).arg(format!("{VERIF_DIR}/drivers/Drv.java")).output();
+    match o {
+        Ok(o) if o.status.success() => Ok(()),
+        Ok(o) => Err(format!("cannot compile drivers/Drv.java: {}", String::from_utf8_lossy(&o.stderr))),
+        Err(e) => Err(format!("cannot run javac: {e}")),
+    }
+}
+
 pub fn check(tier: Tier) -> i32 {
+    check_on(tier, None)
+}
+
+/// `only`: run on exactly these states (single-source / replay mode: no evidence or replay file
+/// is written) instead of the explored and selected ones.
+pub fn check_on(tier: Tier, only: Option<Vec<Selected>>) -> i32 {
     let mut ev = Evidence::new("C19", tier_name(tier));
-    let e = explore(tier);
-    let sel = select::select(&e, tier, Lang::Java, &|_, _| true);
+    let single = only.is_some();
+    let (e, sel) = match only {
+        Some(states) => (pdlmc_core::graph::Explored::default(), select::Selection { states, strata: vec![] }),
+        None => {
+            let e = explore(tier);
+            let sel = select::select(&e, tier, Lang::Java, &|_, _| true);
+            (e, sel)
+        }
+    };
     let root = PathBuf::from(format!("{VERIF_DIR}/work/java_{}", tier_name(tier)));
     let _ = std::fs::remove_dir_all(&root);
     let src = root.join("src");
     let drv_classes = root.join("drv");
     std::fs::create_dir_all(&src).expect("mkdir");
     std::fs::create_dir_all(&drv_classes).expect("mkdir");
-    let o = Command::new("javac").args(["-nowarn", "-d"]).arg(&drv_classes).arg(format!("{VERIF_DIR}/drivers/Drv.java")).output();
-    match o {
-        Ok(o) if o.status.success() => {}
-        Ok(o) => {
-            eprintln!("machinery: cannot compile drivers/Drv.java: {}", String::from_utf8_lossy(&o.stderr));
-            return 2;
-        }
-        Err(e) => {
-            eprintln!("machinery: cannot run javac: {e}");
-            return 2;
-        }
+    if let Err(e) = build_driver(&drv_classes) {
+        eprintln!("machinery: {e}");
+        return 2;
     }
     let thorough = tier == Tier::Thorough;
     let limit: usize = std::env::var("PDLMC_LIMIT").ok().and_then(|s| s.parse().ok()).unwrap_or(usize::MAX);
     let stride: usize = std::env::var("PDLMC_JAVA_STRIDE").ok().and_then(|s| s.parse().ok()).unwrap_or(if thorough { 1 } else { 2 });
     let group: usize = std::env::var("PDLMC_JAVA_GROUP").ok().and_then(|s| s.parse().ok()).unwrap_or(16);
-    let jobs: Vec<&Selected> = sel.states.iter().step_by(stride.max(1)).take(limit).collect();
-    let t_cc = AtomicU64::new(0);
-    let t_run = AtomicU64::new(0);
+    let jobs: Vec<&Selected> = sel.states.iter().step_by(if single { 1 } else { stride.max(1) }).take(limit).collect();
+    let timers = Timers { cc: AtomicU64::new(0), run: AtomicU64::new(0) };
     let t_prep = AtomicU64::new(0);
     let t_all = AtomicU64::new(0);
     eprintln!("explore+select: {:.1}s", ev.start.elapsed().as_secs_f64());
@@ -725,7 +791,7 @@ pub fn check(tier: Tier) -> i32 {
             let units: Vec<Unit> = sts
                 .iter()
                 .filter_map(|st| {
-                    let u = prepare(st, &src, thorough);
+                    let u = prepare(st, &src, thorough, None);
                     if u.is_none() {
                         not_generated.fetch_add(1, Ordering::Relaxed);
                     }
@@ -738,7 +804,7 @@ pub fn check(tier: Tier) -> i32 {
                 return vec![];
             }
             let dir = root.join(format!("g{k}"));
-            let out = run_group(&refs, &dir, &src, &drv_classes, &t_cc, &t_run, &machinery_errors);
+            let out = run_group(&refs, &dir, &src, &drv_classes, &timers, &machinery_errors);
             if std::env::var("PDLMC_TRACE").is_ok() {
                 eprintln!("group {k}: started {:.1}s finished {:.1}s", (t0 - ev_start).as_secs_f64(), ev_start.elapsed().as_secs_f64());
             }
@@ -749,8 +815,9 @@ pub fn check(tier: Tier) -> i32 {
         })
         .collect();
     eprintln!("parallel section done at {:.1}s", ev.start.elapsed().as_secs_f64());
-    eprintln!("phases (wall ms summed over groups): prepare={} javac={} jvm={} total={}", t_prep.load(Ordering::Relaxed), t_cc.load(Ordering::Relaxed), t_run.load(Ordering::Relaxed), t_all.load(Ordering::Relaxed));
+    eprintln!("phases (wall ms summed over groups): prepare={} javac={} jvm={} total={}", t_prep.load(Ordering::Relaxed), timers.cc.load(Ordering::Relaxed), timers.run.load(Ordering::Relaxed), t_all.load(Ordering::Relaxed));
     let mut rep = Reporter::new("C19");
+    rep.dry = single;
     let mut counters: BTreeMap<String, usize> = BTreeMap::new();
     let mut samples = vec![];
     for (r, c, s) in per_task {
@@ -789,6 +856,9 @@ pub fn check(tier: Tier) -> i32 {
     let distinct = counters.iter().filter(|(k, v)| k.starts_with("outcome:") && **v > 0).count();
     ev.set("distinct_outcome_classes", json!(distinct));
     ev.set("machinery_errors", json!(machinery_errors.load(Ordering::Relaxed)));
+    if single {
+        return code;
+    }
     ev.write(&format!("{VERIF_DIR}/evidence"));
     if distinct < 2 {
         eprintln!("machinery error: exploration produced {distinct} outcome class(es)");
